@@ -109,6 +109,51 @@ def antipode(p):
     return (lon, -p[1])
 
 
+TINY_LATS = [0.0, 45.0, -33.3, 60.0, 12.345678, 85.0, 89.9, 89.999999, -89.99, 90.0, -90.0, 1e-7]
+TINY_LONS = [0.0, 12.5, -77.0365, 179.9999999, 180.0, -180.0, -179.99999999, 90.0, 1e-9]
+
+
+def wrap_point(lon, lat):
+    lat = max(-90.0, min(90.0, lat))
+    if lon > 180.0:
+        lon -= 360.0
+    elif lon < -180.0:
+        lon += 360.0
+    return (max(-180.0, min(180.0, lon)), lat)
+
+
+def gen_tiny_triple(rng):
+    """points a hand's breadth to a street apart (1e-3 .. 1e-9 degrees, and neighbours one ulp apart), at several base
+    latitudes incl. next to the poles and across the antimeridian; the third point mostly (nearly) in line with the two"""
+    lat = rng.choice(TINY_LATS) if rng.random() < 0.7 else dyadic(rng, -90, 90, 20)
+    lon = rng.choice(TINY_LONS) if rng.random() < 0.6 else dyadic(rng, -180, 180, 20)
+    p = (lon, lat)
+    k = rng.random()
+    if k < 0.12:             # one-ulp neighbours
+        q = wrap_point(math.nextafter(lon, rng.choice([-math.inf, math.inf])) if rng.random() < 0.5 else lon,
+                       math.nextafter(lat, rng.choice([-math.inf, math.inf])) if rng.random() < 0.7 else lat)
+        v = (q[0] - p[0], q[1] - p[1])
+    else:
+        s_ = 10.0 ** -rng.uniform(3, 9)
+        th = rng.choice([0.0, math.pi / 2, math.pi, -math.pi / 2]) if rng.random() < 0.45 else rng.uniform(0, 2 * math.pi)
+        v = (s_ * math.cos(th) if abs(math.cos(th)) > 1e-12 else 0.0, s_ * math.sin(th) if abs(math.sin(th)) > 1e-12 else 0.0)
+        q = wrap_point(lon + v[0], lat + v[1])
+    k = rng.random()
+    if k < 0.55:             # collinear / nearly collinear
+        t = rng.choice([2.0, 0.5, 3.0, -1.0, 1.5, 10.0])
+        eps = 0.0 if rng.random() < 0.5 else rng.choice([1e-3, -1e-3, 1e-6])
+        r_ = wrap_point(lon + t * v[0] - eps * v[1], lat + t * v[1] + eps * v[0])
+    elif k < 0.8:            # a third point equally close, any direction
+        s2 = 10.0 ** -rng.uniform(3, 9)
+        th = rng.uniform(0, 2 * math.pi)
+        r_ = wrap_point(lon + s2 * math.cos(th), lat + s2 * math.sin(th))
+    else:
+        r_ = rng.choice([p, q])
+    pts = [p, q, r_]
+    rng.shuffle(pts)
+    return pts
+
+
 def gen_dist_case(rng, kind):
     metric = rng.choice(METRICS)
     if kind == "wild":
@@ -116,6 +161,9 @@ def gen_dist_case(rng, kind):
                 123456.789, -0.1, 180.00000000000003, -180.00000000000003, 90.00000000000001, 1e-9]
         pts = [(rng.choice(vals), rng.choice(vals)) if rng.random() < 0.6 else gen_sphere_point(rng) for _ in range(3)]
         return dict(kind="dist", sub="wild", metric=metric, pts=[[tok(v) for v in p] for p in pts], radius=tok(EARTH))
+    if metric == "great_circle_distance" and kind == "valid" and rng.random() < 0.3:
+        radius = rng.choice([EARTH, EARTH, EARTH, 1.0, 1737400.0])
+        return dict(kind="dist", sub="tiny", metric=metric, pts=[[tok(v) for v in p] for p in gen_tiny_triple(rng)], radius=tok(radius))
     if metric == "great_circle_distance":
         p = gen_sphere_point(rng)
         k = rng.random()
@@ -161,6 +209,21 @@ def same_sphere_point(p, q):
     if p[1] != q[1]:
         return False
     return p[0] == q[0] or abs(p[1]) == 90 or abs(p[0] - q[0]) == 360
+
+
+def gc_reference(p, q, R):
+    """the haversine distance evaluated from the EXACT coordinate differences (the subtraction of two close floats is
+    exact; converting each coordinate to radians first and subtracting then is not): accurate to a few ulps also for
+    points a millimetre apart.  Longitude differences are taken the short way round."""
+    dlat = Fraction(q[1]) - Fraction(p[1])
+    dlon = Fraction(q[0]) - Fraction(p[0])
+    if dlon > 180:
+        dlon -= 360
+    elif dlon < -180:
+        dlon += 360
+    dla, dlo = math.radians(float(dlat)), math.radians(float(dlon))
+    a = math.sin(dla / 2) ** 2 + math.cos(math.radians(p[1])) * math.cos(math.radians(q[1])) * math.sin(dlo / 2) ** 2
+    return 2 * R * math.asin(min(1.0, math.sqrt(a)))
 
 
 def oracle_dist(c):
@@ -227,6 +290,29 @@ def oracle_dist(c):
             underflow = all(d == 0 or d < Fraction(1, 10 ** 150) for d in diffs)   # squares vanish in floats
             if (p == q) != (res["pq"] == 0.0) and not (p != q and underflow):
                 return f"{name}: d(p,q)={res['pq']} for p={p} q={q} (zero iff coincident)"
+    if is_gc and R > 0 and math.isfinite(R):
+        # close points: the tolerance follows the separation (1e-8 of the circumference is 40 cm on the earth).  What float
+        # evaluation of the documented formula costs: the radian conversion of each coordinate is off by an ulp, i.e. the
+        # distance by some 1e-15 R; 1e-12 R (6 micrometres on the earth) is three orders above that.
+        near_pole = any(abs(pt[1]) > 89.9 for pt in pts)
+        tight = {}
+        for k in ("pq", "pr", "qr"):
+            if k in res:
+                ref = gc_reference(*pairs[k], R)
+                if ref < 1e-3 * R:
+                    tight[k] = ref
+                    t_abs, t_rel = 1e-12 * R, (1e-5 if near_pole else 1e-8)
+                    if abs(res[k] - ref) > t_abs + t_rel * ref:
+                        return (f"{name}: d={res[k]!r} for {pairs[k][0]} -> {pairs[k][1]}, {ref / R:.3e} R apart: the haversine formula "
+                                f"on the exact coordinate differences gives {ref!r} (off by {abs(res[k] - ref):.3e}, allowed "
+                                f"{t_abs + t_rel * ref:.3e})")
+                    if ref > 1e-11 * R and res[k] == 0.0 and not same_sphere_point(*pairs[k]):
+                        return f"{name}: distinct points {pairs[k][0]} {pairs[k][1]} ({ref!r} apart) at distance 0"
+        if "pq" in tight and "qp" in res and abs(res["pq"] - res["qp"]) > 1e-12 * R:
+            return f"{name}: not symmetric for close points: d(p,q)={res['pq']!r} d(q,p)={res['qp']!r} p={p} q={q}"
+        if len(tight) == 3 and res["pr"] > res["pq"] + res["qr"] + 1e-12 * R + 1e-9 * (res["pq"] + res["qr"]):
+            return (f"{name}: triangle inequality fails for close points: d(p,r)={res['pr']!r} > d(p,q)+d(q,r)="
+                    f"{res['pq'] + res['qr']!r} p={p} q={q} r={r_}")
     if all(k in res for k in ("pr", "pq", "qr")):
         if res["pr"] > res["pq"] + res["qr"] + tol:
             return (f"{name}: triangle inequality fails: d(p,r)={res['pr']} > d(p,q)+d(q,r)="
@@ -661,8 +747,8 @@ def exact_floor_note(rad, cx, cy, hw, hh):
                for rf in radius_floats(rad))
 
 
-def oracle_kernel(c, note=None):
-    st, k = call_kernel(c)
+def oracle_kernel(c, note=None, built=None):
+    st, k = call_kernel(c) if built is None else built
     if c["kind"] == "ellipse":
         hw, hh = c["hw"], c["hh"]
         if hw < 0 or hh < 0:
@@ -763,10 +849,10 @@ def kernel_requests(c):
     return [f"annulus cx={cx} cy={cy} ro={cps(rad_str(c['ro']))} ri={cps(rad_str(c['ri']))}"]
 
 
-def compare_kernel(r, c, replies):
+def compare_kernel(r, c, replies, built=None):
     """exact comparison: the model performs `float(number)`, `* UNITS[unit]` and `/ cellsize` with
     IEEE binary64 rounding, so even radii that are exact multiples of a cell size must agree"""
-    st, k = call_kernel(c)
+    st, k = call_kernel(c) if built is None else built
     rep = replies[0]
     strs = [rad_str(c[key]) for key in ("r", "ro", "ri") if key in c]
     if not all(s.isascii() for s in strs):
@@ -783,6 +869,83 @@ def compare_kernel(r, c, replies):
     if mg.shape != k.shape or not np.array_equal(mg, k):
         r.disagree("kernel-vs-real", c, f"shape {k.shape} {k.tolist() if k.size < 60 else ''}",
                    f"shape {mg.shape} {mg.tolist() if mg.size < 60 else ''}")
+
+
+# ------------------------------------------------------------------------------------------------
+# 3b. kernel-builder histories: build, the caller edits what it was handed, build again with equal half sizes
+# ------------------------------------------------------------------------------------------------
+EDITS = ["fill", "centre0", "normalise", "negate", "none"]
+
+
+def spell_radius(rng, r):
+    """the same distance written differently: number, decimal string, metres, kilometres, feet"""
+    how = rng.choice(["num", "num", "str", "m", "km", "ft", "int"])
+    if how == "int" and r == int(r):
+        return int(r)
+    if how == "str":
+        return repr(float(r))
+    if how == "m":
+        return f"{float(r)!r} m" if rng.random() < 0.5 else f"{float(r)!r}meters"
+    if how == "km" and plain_decimal(repr(r / 1000.0)):
+        return f"{r / 1000.0!r}km"
+    if how == "ft" and plain_decimal(repr(r / 0.3048)):
+        return f"{r / 0.3048!r} ft"
+    return float(r)
+
+
+def gen_khist(rng):
+    """a caller's session with the kernel builders: every step asks for a kernel with the SAME integer half sizes as
+    the step before (other cell sizes / radius / unit spelling), and between the steps the caller edits the arrays it
+    was handed in place (zero the centre for a neighbours-only kernel, normalise, negate, overwrite).  Every build
+    must still be the stated shape."""
+    hw, hh = rng.randrange(1, 6), rng.randrange(1, 6)
+    steps = []
+    for _ in range(rng.randrange(3, 7)):
+        if rng.random() < 0.25:
+            hw, hh = rng.randrange(1, 6), rng.randrange(1, 6)       # now and then another size
+        c = rng.choice([1, 1, 2, 0.5, 10, 0.25, 30])
+        cx = c
+        r = c * (hw + rng.choice([0.5, 0.25, 0.75]))
+        cy = r / (hh + rng.choice([0.5, 0.25, 0.75]))
+        if rng.random() < 0.3 and hw == hh:
+            cy = cx
+        fn = rng.choice(["circle", "circle", "annulus", "ellipse"])
+        if fn == "ellipse":
+            call = dict(kind="ellipse", sub="valid", hw=hw, hh=hh)
+        elif fn == "circle":
+            call = dict(kind="circle", sub="valid", cx=cx, cy=cy, r=spell_radius(rng, r))
+        else:
+            call = dict(kind="annulus", sub="valid", cx=cx, cy=cy, ro=spell_radius(rng, r), ri=spell_radius(rng, r * rng.choice([0.25, 0.5])))
+        steps.append(dict(call=call, edit=rng.choice(EDITS)))
+    return dict(kind="khist", sub="caller-edits", steps=steps)
+
+
+def apply_edit(k, edit):
+    if not isinstance(k, np.ndarray) or k.ndim != 2 or not k.size or not k.flags.writeable or edit == "none":
+        return
+    if edit == "fill":
+        k[...] = -7.5
+    elif edit == "centre0":
+        k[k.shape[0] // 2, k.shape[1] // 2] = 0
+    elif edit == "normalise" and k.sum() != 0:
+        k /= k.sum()
+    elif edit == "negate":
+        k *= -1
+
+
+def run_khist(c):
+    """-> (first failure or None, [(status, copy of the array as returned) per step])"""
+    bad, builds = None, []
+    for n, st in enumerate(c["steps"]):
+        status, k = call_kernel(st["call"])
+        builds.append((status, k.copy() if isinstance(k, np.ndarray) else k))
+        if bad is None:
+            b = oracle_kernel(st["call"], built=(status, k))
+            if b:
+                edits = [f"{m}:{s_['edit']}" for m, s_ in enumerate(c["steps"][:n]) if s_["edit"] != "none"]
+                bad = f"step {n} of a kernel-builder session (the caller edited in place the arrays returned by steps {edits}): {b}"
+        apply_edit(k, st["edit"])
+    return bad, builds
 
 
 # ------------------------------------------------------------------------------------------------
@@ -904,7 +1067,7 @@ def compare_round(r, c, reply):
 
 
 ORACLES = {"round": lambda c: None, "dist": oracle_dist, "string": oracle_string, "circle": oracle_kernel, "annulus": oracle_kernel,
-           "ellipse": oracle_kernel, "cellsize": oracle_cellsize}
+           "ellipse": oracle_kernel, "cellsize": oracle_cellsize, "khist": lambda c: run_khist(c)[0]}
 
 
 def mile_singular(c):
@@ -927,8 +1090,9 @@ def corpus_cases(r):
 
 
 def counts(tier, scale=1):
-    base = {"quick": dict(dist=6000, wild=1000, string=15000, kernel=3000, malformed=600, cellsize=600, round=1500),
-            "thorough": dict(dist=150000, wild=20000, string=400000, kernel=60000, malformed=12000, cellsize=10000, round=30000)}[tier]
+    base = {"quick": dict(dist=6000, wild=1000, string=15000, kernel=3000, malformed=600, cellsize=600, round=1500, khist=300),
+            "thorough": dict(dist=150000, wild=20000, string=400000, kernel=60000, malformed=12000, cellsize=10000, round=30000,
+                             khist=6000)}[tier]
     return {k: int(v * scale) for k, v in base.items()}
 
 
@@ -956,10 +1120,16 @@ def run(r, scale=1, oracle_only=False):
     rng = r.rng
     r.rule = ("distances: point triples on a dyadic grid of the plane (scales 1..2^20) / the sphere incl. poles, "
               "antimeridian twins, antipodes and near-antipodes, coincident points, out-of-range coordinates by 1 ulp .. 1e300, "
+              "30% of the valid sphere triples at tiny separations (1e-3 .. 1e-9 degrees and one-ulp neighbours; base latitudes "
+              "0 .. 89.999999 and the poles, longitudes incl. both sides of the antimeridian; third point collinear, nearly "
+              "collinear or anywhere equally close) checked with a tolerance that follows the separation (1e-12 R + 1e-8 d), "
               "and a wild stream (nan, inf, subnormals); strings: literal x separator x unit spelling products, numeric "
               "notations, inf/nan spellings, random strings over digits . - + blanks and unit letters; kernels: cell sizes "
               "from {1..100, dyadics, 0.1, 0.3, 0.3048} with cx != cy, radii as ints / floats / exact multiples of a cell "
               "size / unit strings, malformed (zero / negative cell size, bad radius, inner > outer, zero radius); "
+              "kernel-builder sessions: 3..6 builds (circle / annulus / _ellipse_kernel) with the same integer half sizes from "
+              "different cell sizes, radii and unit spellings, the caller editing every returned array in place between the "
+              "builds (overwrite, zero the centre, normalise, negate), each build checked against the stated shape and the model; "
               "calc_cellsize: res tuple / scalar / coordinates x unit attribute; non-trivial = distinct case json, "
               "excluding identical-point planar triples and all-zero inputs")
     cases = corpus_cases(r)
@@ -978,6 +1148,8 @@ def run(r, scale=1, oracle_only=False):
         cases.append(gen_kernel_case(rng, "valid"))
     for _ in range(n["malformed"]):
         cases.append(gen_kernel_case(rng, "malformed"))
+    for _ in range(n["khist"]):
+        cases.append(gen_khist(rng))
     for _ in range(n["cellsize"]):
         cases.append(gen_cellsize_case(rng))
     for _ in range(n["round"]):
@@ -998,8 +1170,12 @@ def run(r, scale=1, oracle_only=False):
         if kind == "dist":
             tags.append(f"metric:{c['metric']}")
         r.case(c, desc=c if idx % 97 == 0 else None, nontrivial=not trivial, tags=tags)
+        builds = None
         try:
-            bad = oracle_kernel(c, note=r.tag) if kind == "circle" else ORACLES[kind](c)
+            if kind == "khist":
+                bad, builds = run_khist(c)
+            else:
+                bad = oracle_kernel(c, note=r.tag) if kind == "circle" else ORACLES[kind](c)
         except Exception as ex:          # an oracle crash must not hide a problem
             bad = None
             r.notes.append(f"oracle crashed on {c}: {ex!r}")
@@ -1022,6 +1198,11 @@ def run(r, scale=1, oracle_only=False):
             for k_, line in enumerate(kernel_requests(c)):
                 requests.append(line)
                 owners.append((idx, "kernel", k_))
+        elif kind == "khist":
+            for k_, st in enumerate(c["steps"]):
+                if builds is not None and not too_big(st["call"]):
+                    requests.append(kernel_requests(st["call"])[0])
+                    owners.append((idx, "khist", (k_, builds[k_])))
         elif kind == "round":
             requests.append(f"round q={c['n']}/{c['d']}")
             owners.append((idx, "round", 0))
@@ -1046,6 +1227,9 @@ def run(r, scale=1, oracle_only=False):
                 compare_string(r, c, lst[0][2], lst[1][2])
             elif what == "kernel":
                 compare_kernel(r, c, [x[2] for x in lst])
+            elif what == "khist":
+                for _, (k_, built), rep_ in lst:
+                    compare_kernel(r, c["steps"][k_]["call"], [rep_], built=built)
             elif what == "round":
                 compare_round(r, c, lst[0][2])
             else:
